@@ -98,6 +98,12 @@ class Inliner:
 
     def _assign(self, target, val, stmt):
         """val already substituted"""
+        if isinstance(target, (ast.Tuple, ast.List)) and isinstance(val, ast.IfExp) and \
+                all(isinstance(b, (ast.Tuple, ast.List)) and len(b.elts) == len(target.elts) for b in (val.body, val.orelse)):
+            # (a, b) = (x, y) if c else (u, v)   ->   a = x if c else u ; b = y if c else v
+            for i, t in enumerate(target.elts):
+                self._assign(t, ast.IfExp(val.test, val.body.elts[i], val.orelse.elts[i]), stmt)
+            return
         if isinstance(target, (ast.Tuple, ast.List)):
             if isinstance(val, (ast.Tuple, ast.List)) and len(val.elts) == len(target.elts) and \
                     not any(isinstance(x, ast.Starred) for x in list(val.elts) + list(target.elts)):
